@@ -1,4 +1,16 @@
 #!/bin/bash
 . "$(dirname "$0")/../../lib.sh"
 build_e1 c11 $TARS_E1_ARGS
-exec "$WORK/bin/c11" "$@"
+# supplement: ssl endpoints on real sockets (see checks/c11tls)
+rc1=0
+case " $* " in *" --replay "*) ;; *)
+  ov=(); [ -n "$VERIF_EXTRA_OVERLAY" ] && ov=(-overlay "$VERIF_EXTRA_OVERLAY")   # seeded mutants without touching /repo
+  (cd "$VERIF_ROOT" && go build "${ov[@]}" -o "$WORK/bin/c11tls" ./checks/c11tls) || exit 2
+  rm -f "$VERIF_ROOT/evidence/C11.tls.json"
+  VERIF_EVIDENCE_SUFFIX=.tls "$WORK/bin/c11tls" "$@"; rc1=$?
+  ;;
+esac
+E1_FOLD=.tls "$WORK/bin/c11" "$@"; rc2=$?
+rm -f "$VERIF_ROOT/evidence/C11.tls.json"
+[ $rc1 -gt $rc2 ] && exit $rc1
+exit $rc2
